@@ -165,9 +165,10 @@ def run(ctx: Ctx):
     ctx.assumptions = ["records are compared as text fields parsed independently of src/parsers",
                        "nothing beyond C05 is demanded of 'best' (the property text does not)"]
     res, lines, out = file_common.explore(ctx, 24 if quick else 400, salt=8,
-                                          n_qry=14,
+                                          n_qry=18,
                                           kinds=["split", "swapped", "dup", "indel", "chimeric", "partial", "split",
-                                                 "dropped", "indel", "split", "stretched", "mirror", "endstub", "endstub"])
+                                                 "dropped", "indel", "split", "stretched", "mirror", "endstub", "endstub",
+                                                 "splitindel", "splitindel", "splitindelrev", "splitindelrev"])
     joins = 0
     for rr, ln in zip(res, lines):
         if ln is None:
